@@ -2,6 +2,7 @@
 Helper lemmas about the bit-field accessor loops (Model/Bitfield.lean), for buffers of any length.
 -/
 import Mctp.Model.Bitfield
+import Mctp.Model.Views
 namespace Mctp
 
 theorem putBit_getLsbD (b : B) (pos : Nat) (v : Bool) (j : Nat) (hp : pos < 8) :
@@ -25,7 +26,7 @@ theorem getBit_setBit (buf : Bytes) (k pos : Nat) (v : Bool) (k' pos' : Nat) (hk
   unfold getBit setBit
   by_cases h : k' = k
   · subst h; simp [List.getD_eq_getElem?_getD, hk, putBit_getLsbD, hp]
-  · simp [List.getD_eq_getElem?_getD, List.getElem?_set, h, Ne.symm h]
+  · simp [List.getD_eq_getElem?_getD, h, Ne.symm h]
 
 theorem setLoop_length (posOf) : ∀ (is : List Nat) (st : Bytes × Nat), (setLoop posOf is st).1.length = st.1.length
   | [], st => rfl
@@ -53,5 +54,345 @@ theorem getBit_setLoop (posOf : Nat → Nat) (hpos : ∀ i, posOf i < 8)
           simp [List.idxOf_cons, hb]
         simp [hmem, hji, this, Nat.testBit_succ]
       · simp [hmem, hji, getBit_setBit, hi, hpos, hne]
+
+/-! ### single-byte loops and localisation -/
+
+/-- setter loop restricted to one byte -/
+def byteSetLoop (posOf : Nat → Nat) : List Nat → B × Nat → B × Nat
+  | [], st => st
+  | i :: is, (b, v) => byteSetLoop posOf is (putBit b (posOf i) (v % 2 == 1), v / 2)
+
+/-- getter loop restricted to one byte -/
+def byteGetLoop (posOf : Nat → Nat) (b : B) : List Nat → Nat → Nat
+  | [], acc => acc
+  | i :: is, acc => byteGetLoop posOf b is (2 * acc + (if b.getLsbD (posOf i) then 1 else 0))
+
+/-- the bits a setter loop leaves untouched -/
+def clrMask (posOf : Nat → Nat) : List Nat → B
+  | [] => BitVec.allOnes 8
+  | i :: is => ~~~(1#8 <<< posOf i) &&& clrMask posOf is
+
+theorem setLoop_append (posOf) : ∀ (is js : List Nat) (st : Bytes × Nat),
+    setLoop posOf (is ++ js) st = setLoop posOf js (setLoop posOf is st)
+  | [], js, st => rfl
+  | i :: is, js, (buf, v) => by simp only [List.cons_append, setLoop]; exact setLoop_append posOf is js _
+
+theorem getLoop_append (posOf) (buf : Bytes) : ∀ (is js : List Nat) (acc : Nat),
+    getLoop posOf buf (is ++ js) acc = getLoop posOf buf js (getLoop posOf buf is acc)
+  | [], js, acc => rfl
+  | i :: is, js, acc => by simp only [List.cons_append, getLoop]; exact getLoop_append posOf buf is js _
+
+/-- a getter loop whose indices all lie in byte `k` only reads `buf.getD k 0` -/
+theorem getLoop_local (posOf) (buf : Bytes) (k : Nat) : ∀ (is : List Nat) (acc : Nat),
+    (∀ i ∈ is, i / 8 = k) → getLoop posOf buf is acc = byteGetLoop posOf (buf.getD k 0) is acc
+  | [], acc, _ => rfl
+  | i :: is, acc, h => by
+    have hi : i / 8 = k := h i (by simp)
+    rw [getLoop, byteGetLoop, getBit, hi,
+      getLoop_local posOf buf k is _ (fun j hj => h j (by simp [hj]))]
+
+/-- a setter loop whose indices all lie in byte `k` only rewrites byte `k` -/
+theorem setLoop_local (posOf) (k : Nat) : ∀ (is : List Nat) (buf : Bytes) (v : Nat),
+    k < buf.length → (∀ i ∈ is, i / 8 = k) →
+    setLoop posOf is (buf, v) =
+      (buf.set k (byteSetLoop posOf is (buf.getD k 0, v)).1, (byteSetLoop posOf is (buf.getD k 0, v)).2)
+  | [], buf, v, hk, _ => by
+    simp [setLoop, byteSetLoop, List.getD_eq_getElem?_getD, hk]
+  | i :: is, buf, v, hk, h => by
+    have hi := h i (by simp)
+    rw [setLoop, byteSetLoop, hi,
+      setLoop_local posOf k is _ _ (by simpa [setBit_length] using hk) (fun j hj => h j (by simp [hj]))]
+    simp [setBit, List.getD_eq_getElem?_getD, hk]
+
+theorem byteSetLoop_snd (posOf) : ∀ (is : List Nat) (b : B) (v : Nat),
+    (byteSetLoop posOf is (b, v)).2 = v / 2 ^ is.length
+  | [], b, v => by simp [byteSetLoop]
+  | i :: is, b, v => by
+    rw [byteSetLoop, byteSetLoop_snd posOf is, List.length_cons, Nat.pow_succ', Nat.div_div_eq_div_mul]
+
+theorem putBit_sep (b m c : B) (pos : Nat) (v : Bool) :
+    putBit ((b &&& m) ||| c) pos v = (b &&& (m &&& ~~~(1#8 <<< pos))) ||| putBit c pos v := by
+  unfold putBit
+  ext j hj
+  simp only [BitVec.getElem_or, BitVec.getElem_and, BitVec.getElem_not]
+  cases b[j] <;> cases m[j] <;> cases c[j] <;> simp
+
+/-- separation of variables: the old byte only contributes through the cleared mask -/
+theorem byteSetLoop_sep (posOf) : ∀ (is : List Nat) (b m c : B) (v : Nat),
+    (byteSetLoop posOf is ((b &&& m) ||| c, v)).1 =
+      (b &&& (m &&& clrMask posOf is)) ||| (byteSetLoop posOf is (c, v)).1
+  | [], b, m, c, v => by
+    simp only [byteSetLoop, clrMask, BitVec.and_allOnes]
+  | i :: is, b, m, c, v => by
+    rw [byteSetLoop, putBit_sep, byteSetLoop_sep posOf is, byteSetLoop, clrMask, BitVec.and_assoc]
+
+theorem byteSetLoop_zero (posOf) (is : List Nat) (b : B) (v : Nat) :
+    (byteSetLoop posOf is (b, v)).1 = (b &&& clrMask posOf is) ||| (byteSetLoop posOf is (0#8, v)).1 := by
+  have h := byteSetLoop_sep posOf is b (BitVec.allOnes 8) 0#8 v
+  rw [BitVec.and_allOnes, BitVec.or_zero, BitVec.allOnes_and] at h; exact h
+
+/-- only the low `is.length` bits of the value are consumed -/
+theorem byteSetLoop_mod (posOf) : ∀ (is : List Nat) (n : Nat) (b : B) (v : Nat), is.length ≤ n →
+    (byteSetLoop posOf is (b, v % 2 ^ n)).1 = (byteSetLoop posOf is (b, v)).1
+  | [], n, b, v, _ => rfl
+  | i :: is, 0, b, v, h => by simp at h
+  | i :: is, n + 1, b, v, h => by
+    have h1 : v % 2 ^ (n + 1) % 2 = v % 2 := by
+      rw [Nat.pow_succ']; exact Nat.mod_mul_right_mod _ _ _
+    have h2 : v % 2 ^ (n + 1) / 2 = v / 2 % 2 ^ n := by
+      rw [Nat.pow_succ']; exact Nat.mod_mul_right_div_self _ _ _
+    rw [byteSetLoop, byteSetLoop, h1, h2, byteSetLoop_mod posOf is n _ _ (by simpa using h)]
+
+theorem byteGetLoop_acc (posOf) (b : B) : ∀ (is : List Nat) (acc : Nat),
+    byteGetLoop posOf b is acc = 2 ^ is.length * acc + byteGetLoop posOf b is 0
+  | [], acc => by simp [byteGetLoop]
+  | i :: is, acc => by
+    rw [byteGetLoop, byteGetLoop, byteGetLoop_acc posOf b is (2 * acc + _),
+      byteGetLoop_acc posOf b is (2 * 0 + _), List.length_cons, Nat.pow_succ]
+    grind
+
+/-! ### fields that live inside one byte -/
+
+theorem idxUp_byte (msb lsb k : Nat) (hl : lsb / 8 = k) (hm : msb / 8 = k) : ∀ i ∈ idxUp msb lsb, i / 8 = k := by
+  intro i hi
+  simp only [idxUp, List.mem_range'_1] at hi
+  omega
+
+theorem idxDown_byte (msb lsb k : Nat) (hl : lsb / 8 = k) (hm : msb / 8 = k) : ∀ i ∈ idxDown msb lsb, i / 8 = k := by
+  intro i hi
+  exact idxUp_byte msb lsb k hl hm i (by simpa [idxDown] using hi)
+
+/-- what a single-byte getter computes from its byte -/
+def Field.getByte (f : Field) (x : B) : Nat :=
+  if f.msb0 then byteGetLoop posMsb0 x (idxUp f.msb f.lsb) 0 % 2 ^ (f.msb + 1 - f.lsb)
+  else byteGetLoop posLsb0 x (idxDown f.msb f.lsb) 0 % 2 ^ (f.msb + 1 - f.lsb)
+
+/-- what a single-byte setter stores into its byte -/
+def Field.setByte (f : Field) (x : B) (v : Nat) : B :=
+  if f.msb0 then (byteSetLoop posMsb0 (idxDown f.msb f.lsb) (x, v % 2 ^ f.valBits)).1
+  else (byteSetLoop posLsb0 (idxUp f.msb f.lsb) (x, v % 2 ^ f.valBits)).1
+
+/-- the bits of its byte a single-byte setter keeps -/
+def Field.keepMask (f : Field) : B :=
+  if f.msb0 then clrMask posMsb0 (idxDown f.msb f.lsb) else clrMask posLsb0 (idxUp f.msb f.lsb)
+
+theorem Field.get_single_byte (f : Field) (k : Nat) (hl : f.lsb / 8 = k) (hm : f.msb / 8 = k) (buf : Bytes) :
+    f.get buf = f.getByte (byteAt buf k) := by
+  unfold Field.get Field.getByte getMsb0 getLsb0 byteAt
+  rw [getLoop_local posMsb0 buf k _ _ (idxUp_byte _ _ k hl hm),
+    getLoop_local posLsb0 buf k _ _ (idxDown_byte _ _ k hl hm)]
+
+theorem Field.set_single_byte (f : Field) (k : Nat) (hl : f.lsb / 8 = k) (hm : f.msb / 8 = k) (buf : Bytes)
+    (v : Nat) (hk : k < buf.length) : f.set buf v = buf.set k (f.setByte (byteAt buf k) v) := by
+  unfold Field.set Field.setByte setMsb0 setLsb0 byteAt
+  rw [setLoop_local posMsb0 k _ buf _ hk (idxDown_byte _ _ k hl hm),
+    setLoop_local posLsb0 k _ buf _ hk (idxUp_byte _ _ k hl hm)]
+  split <;> rfl
+
+theorem Field.setByte_sep (f : Field) (x : B) (v : Nat) :
+    f.setByte x v = (x &&& f.keepMask) ||| f.setByte 0#8 v := by
+  unfold Field.setByte Field.keepMask
+  split
+  · exact byteSetLoop_zero _ _ _ _
+  · exact byteSetLoop_zero _ _ _ _
+
+theorem Field.set_length (f : Field) (buf : Bytes) (v : Nat) : (f.set buf v).length = buf.length := by
+  unfold Field.set setMsb0 setLsb0
+  split <;> exact setLoop_length _ _ _
+
+/-! ### algebra of a bit range `[lo, lo+w)` inside a byte -/
+
+theorem testBit_byte_range (z : B) (lo w j : Nat) :
+    (z.toNat / 2 ^ lo % 2 ^ w).testBit j = (decide (j < w) && z.getLsbD (lo + j)) := by
+  rw [Nat.testBit_mod_two_pow, Nat.testBit_div_two_pow, BitVec.getLsbD, Nat.add_comm]
+
+theorem getLsbD_byte_update (x : B) (c lo w i : Nat) (h : lo + w ≤ 8) :
+    ((x &&& ~~~(BitVec.ofNat 8 (2 ^ w - 1) <<< lo)) ||| (BitVec.ofNat 8 (c % 2 ^ w) <<< lo)).getLsbD i =
+      if lo ≤ i ∧ i < lo + w then c.testBit (i - lo) else x.getLsbD i := by
+  by_cases h8 : i < 8
+  · simp only [BitVec.getLsbD_or, BitVec.getLsbD_and, BitVec.getLsbD_not, BitVec.getLsbD_shiftLeft,
+      BitVec.getLsbD_ofNat, Nat.testBit_two_pow_sub_one, Nat.testBit_mod_two_pow, h8, decide_true, Bool.true_and]
+    by_cases h1 : i < lo
+    · have : ¬ (lo ≤ i ∧ i < lo + w) := by omega
+      simp [h1, this]
+    · by_cases h2 : i < lo + w
+      · have h3 : i - lo < w := by omega
+        have h4 : i - lo < 8 := by omega
+        have : lo ≤ i ∧ i < lo + w := by omega
+        simp [h1, h3, h4, this]
+      · have h3 : ¬ i - lo < w := by omega
+        have : ¬ (lo ≤ i ∧ i < lo + w) := by omega
+        simp [h1, h3, this]
+  · have : ¬ (lo ≤ i ∧ i < lo + w) := by omega
+    rw [BitVec.getLsbD_of_ge _ _ (by omega), BitVec.getLsbD_of_ge x _ (by omega)]
+    simp [this]
+
+/-- reading back the range that was written -/
+theorem byte_update_same (x : B) (c lo w : Nat) (h : lo + w ≤ 8) :
+    ((x &&& ~~~(BitVec.ofNat 8 (2 ^ w - 1) <<< lo)) ||| (BitVec.ofNat 8 (c % 2 ^ w) <<< lo)).toNat / 2 ^ lo % 2 ^ w
+      = c % 2 ^ w := by
+  apply Nat.eq_of_testBit_eq
+  intro j
+  rw [testBit_byte_range, getLsbD_byte_update _ _ _ _ _ h, Nat.testBit_mod_two_pow]
+  by_cases hj : j < w
+  · have : lo ≤ lo + j ∧ lo + j < lo + w := by omega
+    simp [hj, this]
+  · simp [hj]
+
+/-- reading a disjoint range of the same byte -/
+theorem byte_update_other (x : B) (c lo w lo' w' : Nat) (h : lo + w ≤ 8) (hd : lo + w ≤ lo' ∨ lo' + w' ≤ lo) :
+    ((x &&& ~~~(BitVec.ofNat 8 (2 ^ w - 1) <<< lo)) ||| (BitVec.ofNat 8 (c % 2 ^ w) <<< lo)).toNat / 2 ^ lo' % 2 ^ w'
+      = x.toNat / 2 ^ lo' % 2 ^ w' := by
+  apply Nat.eq_of_testBit_eq
+  intro j
+  rw [testBit_byte_range, testBit_byte_range, getLsbD_byte_update _ _ _ _ _ h]
+  by_cases hj : j < w'
+  · have : ¬ (lo ≤ lo' + j ∧ lo' + j < lo + w) := by omega
+    simp [this]
+  · simp [hj]
+
+/-! ### closed forms for contiguous bit ranges -/
+
+/-- bit-level description of a setter loop whose positions are `lo, lo+1, …, lo+w-1` -/
+theorem getLsbD_byteSetLoop_range (posOf : Nat → Nat) : ∀ (is : List Nat) (lo w : Nat) (b : B) (v j : Nat),
+    is.map posOf = List.range' lo w → lo + w ≤ 8 →
+    (byteSetLoop posOf is (b, v)).1.getLsbD j =
+      if lo ≤ j ∧ j < lo + w then v.testBit (j - lo) else b.getLsbD j
+  | [], lo, w, b, v, j, hm, _ => by
+    have hw : w = 0 := by simpa using (congrArg List.length hm).symm
+    subst hw
+    have : ¬ (lo ≤ j ∧ j < lo + 0) := by omega
+    rw [if_neg this]; rfl
+  | i :: is, lo, 0, b, v, j, hm, _ => by simp at hm
+  | i :: is, lo, w + 1, b, v, j, hm, h8 => by
+    rw [List.range'_succ, List.map_cons, List.cons.injEq] at hm
+    rw [byteSetLoop, getLsbD_byteSetLoop_range posOf is (lo + 1) w _ _ j hm.2 (by omega),
+      putBit_getLsbD _ _ _ _ (by omega), hm.1]
+    by_cases h1 : j = lo
+    · subst h1
+      have : ¬ (j + 1 ≤ j ∧ j < j + 1 + w) := by omega
+      simp [this, Nat.testBit_zero, BEq.beq]
+    · by_cases h2 : lo + 1 ≤ j ∧ j < lo + 1 + w
+      · have h3 : lo ≤ j ∧ j < lo + (w + 1) := by omega
+        have h4 : j - lo = (j - (lo + 1)) + 1 := by omega
+        rw [if_pos h2, if_pos h3, h4, Nat.testBit_succ]
+      · have h3 : ¬ (lo ≤ j ∧ j < lo + (w + 1)) := by omega
+        rw [if_neg h2, if_neg h3, if_neg h1]
+
+/-- closed form of a setter loop whose positions are `lo, lo+1, …, lo+w-1` -/
+theorem byteSetLoop_range (posOf : Nat → Nat) (is : List Nat) (lo w : Nat) (b : B) (v : Nat)
+    (hm : is.map posOf = List.range' lo w) (h8 : lo + w ≤ 8) :
+    (byteSetLoop posOf is (b, v)).1 =
+      (b &&& ~~~(BitVec.ofNat 8 (2 ^ w - 1) <<< lo)) ||| (BitVec.ofNat 8 (v % 2 ^ w) <<< lo) := by
+  apply BitVec.eq_of_getLsbD_eq
+  intro j _
+  rw [getLsbD_byteSetLoop_range posOf is lo w b v j hm h8, getLsbD_byte_update _ _ _ _ _ h8]
+
+/-- closed form of a getter loop whose positions are `lo+w-1, …, lo+1, lo` -/
+theorem byteGetLoop_range (posOf : Nat → Nat) (x : B) : ∀ (is : List Nat) (lo w acc : Nat),
+    is.map posOf = (List.range' lo w).reverse →
+    byteGetLoop posOf x is acc = acc * 2 ^ w + x.toNat / 2 ^ lo % 2 ^ w
+  | [], lo, w, acc, hm => by
+    have hw : w = 0 := by simpa using (congrArg List.length hm).symm
+    subst hw; simp [byteGetLoop, Nat.mod_one]
+  | i :: is, lo, 0, acc, hm => by simp at hm
+  | i :: is, lo, w + 1, acc, hm => by
+    rw [List.range'_1_concat, List.reverse_append, List.reverse_singleton, List.singleton_append,
+      List.map_cons, List.cons.injEq] at hm
+    rw [byteGetLoop, byteGetLoop_range posOf x is lo w _ hm.2, hm.1, Nat.mod_pow_succ (k := w),
+      Nat.div_div_eq_div_mul, ← Nat.pow_add, BitVec.getLsbD, Nat.pow_succ]
+    have hb : (if x.toNat.testBit (lo + w) then 1 else 0) = x.toNat / 2 ^ (lo + w) % 2 := by
+      rw [← Nat.toNat_testBit]; cases x.toNat.testBit (lo + w) <;> rfl
+    rw [hb]
+    generalize x.toNat / 2 ^ (lo + w) % 2 = c
+    generalize x.toNat / 2 ^ lo % 2 ^ w = d
+    generalize 2 ^ w = p
+    grind
+
+/-- bit positions (inside the byte) visited by the setter of `f`, in loop order; the getter visits
+them in the reverse order -/
+def Field.setPos (f : Field) : List Nat :=
+  if f.msb0 then (idxDown f.msb f.lsb).map posMsb0 else (idxUp f.msb f.lsb).map posLsb0
+
+/-- closed form of the single-byte getter for a field occupying bits `[lo, lo+w)` of its byte -/
+theorem Field.getByte_range (f : Field) (lo w : Nat) (hp : f.setPos = List.range' lo w) (x : B) :
+    f.getByte x = x.toNat / 2 ^ lo % 2 ^ w := by
+  have hw : f.msb + 1 - f.lsb = w := by
+    have := congrArg List.length hp
+    unfold Field.setPos at this
+    split at this <;> simpa [idxDown, idxUp] using this
+  unfold Field.setPos at hp
+  unfold Field.getByte
+  split
+  · rename_i hb
+    rw [if_pos hb] at hp
+    rw [byteGetLoop_range posMsb0 x _ lo w 0 (by rw [← hp, idxDown, List.map_reverse, List.reverse_reverse]), hw]
+    simp
+  · rename_i hb
+    rw [if_neg hb] at hp
+    rw [byteGetLoop_range posLsb0 x _ lo w 0 (by rw [← hp, idxDown, List.map_reverse]), hw]
+    simp
+
+/-- closed form of the single-byte setter for a field occupying bits `[lo, lo+w)` of its byte -/
+theorem Field.setByte_range (f : Field) (lo w : Nat) (hp : f.setPos = List.range' lo w) (h8 : lo + w ≤ 8)
+    (hv : w ≤ f.valBits) (x : B) (v : Nat) :
+    f.setByte x v =
+      (x &&& ~~~(BitVec.ofNat 8 (2 ^ w - 1) <<< lo)) ||| (BitVec.ofNat 8 (v % 2 ^ w) <<< lo) := by
+  have hmod : v % 2 ^ f.valBits % 2 ^ w = v % 2 ^ w :=
+    Nat.mod_mod_of_dvd _ (Nat.pow_dvd_pow 2 hv)
+  unfold Field.setPos at hp
+  unfold Field.setByte
+  split
+  · rename_i hb
+    rw [if_pos hb] at hp
+    rw [byteSetLoop_range posMsb0 _ lo w x _ hp h8, hmod]
+  · rename_i hb
+    rw [if_neg hb] at hp
+    rw [byteSetLoop_range posLsb0 _ lo w x _ hp h8, hmod]
+
+/-- a field occupying bits `[lo, lo+w)` of byte `k` reads exactly those bits -/
+theorem Field.get_range (f : Field) (k lo w : Nat) (hl : f.lsb / 8 = k) (hm : f.msb / 8 = k)
+    (hp : f.setPos = List.range' lo w) (buf : Bytes) :
+    f.get buf = (byteAt buf k).toNat / 2 ^ lo % 2 ^ w := by
+  rw [Field.get_single_byte f k hl hm, Field.getByte_range f lo w hp]
+
+/-- a field occupying bits `[lo, lo+w)` of byte `k` rewrites exactly those bits -/
+theorem Field.set_range (f : Field) (k lo w : Nat) (hl : f.lsb / 8 = k) (hm : f.msb / 8 = k)
+    (hp : f.setPos = List.range' lo w) (h8 : lo + w ≤ 8) (hv : w ≤ f.valBits) (buf : Bytes) (v : Nat)
+    (hk : k < buf.length) :
+    f.set buf v = buf.set k ((byteAt buf k &&& ~~~(BitVec.ofNat 8 (2 ^ w - 1) <<< lo)) |||
+      (BitVec.ofNat 8 (v % 2 ^ w) <<< lo)) := by
+  rw [Field.set_single_byte f k hl hm buf v hk, Field.setByte_range f lo w hp h8 hv]
+
+theorem byteAt_set (buf : Bytes) (k k' : Nat) (z : B) (hk : k < buf.length) :
+    byteAt (buf.set k z) k' = if k' = k then z else byteAt buf k' := by
+  unfold byteAt
+  by_cases h : k' = k
+  · subst h; simp [List.getD_eq_getElem?_getD, hk]
+  · simp [List.getD_eq_getElem?_getD, h, Ne.symm h]
+
+/-! ### whole-byte loops (multi-byte big-endian fields are concatenations of these) -/
+
+/-- a getter loop that shifts in one whole byte, most significant bit first -/
+theorem getLoop_byte (posOf : Nat → Nat) (buf : Bytes) (is : List Nat) (k acc : Nat)
+    (hk : ∀ i ∈ is, i / 8 = k) (hp : is.map posOf = (List.range' 0 8).reverse) :
+    getLoop posOf buf is acc = acc * 256 + (byteAt buf k).toNat := by
+  rw [getLoop_local posOf buf k is acc hk, byteGetLoop_range posOf _ is 0 8 acc hp]
+  have := (byteAt buf k).isLt
+  unfold byteAt at *
+  omega
+
+/-- a setter loop that stores the low 8 bits of the value into one whole byte -/
+theorem setLoop_byte (posOf : Nat → Nat) (is : List Nat) (k : Nat) (buf : Bytes) (v : Nat)
+    (hk : ∀ i ∈ is, i / 8 = k) (hlen : k < buf.length) (hp : is.map posOf = List.range' 0 8) :
+    setLoop posOf is (buf, v) = (buf.set k (BitVec.ofNat 8 v), v / 256) := by
+  have hl : is.length = 8 := by simpa using congrArg List.length hp
+  rw [setLoop_local posOf k is buf v hlen hk, byteSetLoop_snd, hl,
+    byteSetLoop_range posOf is 0 8 _ v hp (by omega)]
+  have h1 : ∀ b : B, b &&& ~~~(BitVec.ofNat 8 (2 ^ 8 - 1) <<< 0) = 0#8 := by
+    apply forall_byte; decide +kernel
+  have h2 : BitVec.ofNat 8 (v % 2 ^ 8) = BitVec.ofNat 8 v := by
+    apply BitVec.eq_of_toNat_eq; simp
+  rw [h1, h2]; simp
 
 end Mctp
